@@ -178,7 +178,8 @@ class C12(object):
     required_counters = ('addterm.post_evaluated', 'termlist.judged', 'insitu.addterm.post_evaluated', 'sector.histories',
                          'sector.rhs_replaced_mid_history',
                          'addterm.unsupported_form_offered',
-                         'addterm.python_float_passed')
+                         'addterm.python_float_passed',
+                         'addterm.old_name_added_after_a_rename')
 
     def n_cases(self, tier):
         return (15 if tier == 'quick' else 1500) + 1
@@ -280,6 +281,45 @@ class C12(object):
                     except ZeroDivisionError:
                         return
             if not self.judge(eq, dict(h, unsupported_term_offered=text, it_was_added=added), expected, envs, exact, rec, len(h['terms'])):
+                return
+
+        # a name of the equation is renamed in place (as the alias clean-up does), then a term with the OLD name is added: it is a
+        # different variable now and must appear as a term of its own
+        import tokenize as _tk2
+        n_ = names_[0]
+        try:
+            eq.ReplaceTokensFromLookup({n_: 'RN__' + n_})
+            eq.AddTerm(n_)
+        except Exception as e_:
+            rec.violate('addterm_refused', {'history': h, 'after': 'renaming %s and adding it again' % n_, 'err': repr(e_)})
+            return
+        envs_r = [dict(e, **{'RN__' + n_: e[n_]}) for e in envs]
+        expected_r = [expected[i] + _eval(n_, e) for i, e in enumerate(envs)]
+        rec.count('addterm.old_name_added_after_a_rename')
+        toks_ = [v_ for t_, v_ in monitors.token_stream(eq.RHS()) if t_ == _tk2.NAME]
+        if n_ not in toks_:
+            rec.violate('value_mismatch', {'equation': 'main', 'history': h, 'rhs': eq.RHS(),
+                                           'note': 'the name %s was renamed in place, then a term %s was added: it is missing from the right-hand side' % (n_, n_)})
+            return
+        if not self.judge(eq, dict(h, renamed=n_), expected_r, envs_r, exact, rec, len(h['terms']) + 1):
+            return
+        # the same forms as the FIRST term of a fresh equation (where a leading minus is a unary minus), and added three times
+        # (where a merged coefficient ends up in front of the operator)
+        for text, times in (('-(%s//%s)' % (a_, b_), 1), ('-(%s %% %s)' % (a_, b_), 1), ('%s//%s' % (a_, b_), 3), ('%s %% %s' % (b_, a_), 3)):
+            e3 = Equation('v', 'desc')
+            exp3 = [_Fraction(0) for _ in envs]
+            try:
+                for _ in range(times):
+                    e3.AddTerm(text)
+                    for i, e in enumerate(envs):
+                        exp3[i] = exp3[i] + _eval(text, e)
+            except ZeroDivisionError:
+                continue
+            except Exception:
+                continue        # refused: nothing to judge
+            rec.count('addterm.unsupported_form_as_first_term_or_repeated')
+            if not self.judge(e3, {'fresh_equation': True, 'term': text, 'times_added': times, 'names': h['names'], 'lead': None, 'terms': []},
+                              exp3, envs, [True] * len(envs), rec, times, which='fresh equation'):
                 return
 
     def run_sector_history(self, h, rng, rec):
